@@ -377,7 +377,9 @@ def translate(repo, lean):
                 raise ValueError('trait %s no longer uses base::%s (%r)' % (tr, row, uses.get(tr)))
         names = [('binary', 'Binary', 'Binary'), ('octal', 'Octal', 'Octal'), ('decimal', 'Decimal', 'Display'), ('hexadecimal', 'Hexadecimal', 'LowerHex')]
         out = ['/-! GENERATED by tools/props/c09.py (`translate`) from `src/fmt.rs` — do not edit.',
-               '    One row per `impl Base for …`: the numeric base of the trait that uses it, `MAX`, `WIDTH`, `PREFIX`. -/',
+               '    One row per `impl Base for …`: the numeric base of the trait that uses it, `MAX`, `WIDTH`, `PREFIX`.',
+               '    (The facts about the rows are re-proved in `FmtTableFacts.lean`, so that the model still builds — and',
+               '    mirrors the code — when a row is wrong.) -/',
                'namespace Ruint.Gen.FmtTable', '',
                'structure Row where', '  base : Nat', '  max : Nat', '  width : Nat', '  pfx : String', '']
         for lname, row, tr in names:
@@ -388,15 +390,25 @@ def translate(repo, lean):
         out += ['',
                 '/-- what the chunked formatter needs of a row: `MAX = base^WIDTH`, and `MAX` is a `u64` above 1. -/',
                 'def Row.Ok (r : Row) : Prop := r.max = r.base ^ r.width ∧ 1 < r.max ∧ r.max < 2 ^ 64 ∧ 0 < r.width', '',
-                'instance (r : Row) : Decidable r.Ok := by unfold Row.Ok; infer_instance', '']
+                'instance (r : Row) : Decidable r.Ok := by unfold Row.Ok; infer_instance', '',
+                'end Ruint.Gen.FmtTable', '']
+        facts = ['import Ruint.Gen.FmtTable',
+                 '/-! GENERATED by tools/props/c09.py (`translate`) — do not edit. Re-proved on every run against the rows',
+                 '    extracted from the current `src/fmt.rs`. -/',
+                 'namespace Ruint.Gen.FmtTable', '']
         for lname, _, _ in names:
-            out.append('theorem %s_ok : %s.Ok := by decide' % (lname, lname))
-        out += ['', 'end Ruint.Gen.FmtTable', '']
+            facts.append('theorem %s_ok : %s.Ok := by decide' % (lname, lname))
+        facts += ['', 'end Ruint.Gen.FmtTable', '']
         new = '\n'.join(out)
-        changed = new != old
-        if changed:
+        newf = '\n'.join(facts)
+        fpath = os.path.join(lean, 'Ruint', 'Gen', 'FmtTableFacts.lean')
+        oldf = open(fpath).read() if os.path.exists(fpath) else ''
+        changed = new != old or newf != oldf
+        if new != old:
             open(path, 'w').write(new)
-        return {'changed': changed, 'file': 'Ruint/Gen/FmtTable.lean',
+        if newf != oldf:
+            open(fpath, 'w').write(newf)
+        return {'changed': changed, 'file': 'Ruint/Gen/FmtTable.lean + Ruint/Gen/FmtTableFacts.lean',
                 'obligations': ['Ruint.Gen.FmtTable.%s_ok' % n[0] for n in names],
                 'rows': {k: {'MAX': v[1], 'WIDTH': v[2], 'PREFIX': v[3], 'source': v[0]} for k, v in rows.items()},
                 'uses': {k: list(v) for k, v in uses.items()}}
